@@ -351,6 +351,7 @@ class Generator:
         sig = self.render_sig(header, spec)
         rec["signature"] = norm_tokens(it.header)
         attrs = spec.opts.get("attrs")
+        rec["assumed"] = bool(attrs and "external_body" in attrs)
         if attrs:
             for a in attrs.split(","):
                 self.emit("#[%s]" % a)
